@@ -1051,5 +1051,53 @@ Section BEInvariants.
       rewrite H0. destruct (is_zero (bp_h_start p)); [split; lra|].
       destruct (bmin_cases (bp_h_start p) time_step) as [[-> Hc] | [-> Hc]]; split; lra.
     Qed.
+
+    (* ---------- C07: no backward-Euler step exceeds the remaining interval ---------- *)
+    Definition be_size_ok (ts : T) (e : be_event) : Prop :=
+      match e with
+      | BeIter H _ _ _ _ => 0 <= phi H /\ phi H <= phi ts
+      | BeReject H => 0 <= phi H /\ phi H <= phi ts
+      | BeAccept t H => 0 <= phi t /\ 0 <= phi H /\ phi H <= phi ts - phi t
+      | BeUnconverged t H => 0 <= phi t /\ 0 <= phi H /\ phi H <= phi ts - phi t
+      end.
+
+    Lemma be_iter_sizes ts l tr : btinv ts l -> Forall (be_size_ok ts) tr ->
+      match iter ts l with
+      | inr (_, ev) => Forall (be_size_ok ts) (tr ++ ev)
+      | inl (_, _, _, _, ev) => Forall (be_size_ok ts) (tr ++ ev)
+      end.
+    Proof.
+      intros [[Ta Tb] [Ha Hb]] HF.
+      destruct (iter ts l) as [[[[[st t] sts] s] ev]|[l' ev]] eqn:E; unfold be_iter in E;
+        repeat match type of E with context [if ?b then _ else _] => destruct b eqn:? end;
+        inversion E; subst; clear E; apply Forall_app; (split; [exact HF|]);
+        repeat constructor; cbn [be_size_ok]; repeat split; try assumption; lra.
+    Qed.
+
+    Theorem be_step_sizes_within_the_interval fuel time_step s :
+      0 <= phi time_step ->
+      Forall (be_size_ok time_step) (br_trace (solve fuel time_step s)).
+    Proof.
+      intros Hts. unfold be_solve. cbv zeta.
+      match goal with |- context [loop fuel time_step ?l0 []] =>
+        pose proof (be_loop_invariant time_step (fun l tr => btinv time_step l /\ Forall (be_size_ok time_step) tr)
+                      (fun _ _ _ _ tr => Forall (be_size_ok time_step) tr)) as LI;
+        assert (S1 : forall l (tr : list be_event) l' ev, btinv time_step l /\ Forall (be_size_ok time_step) tr ->
+                       iter time_step l = inr (l', ev) -> btinv time_step l' /\ Forall (be_size_ok time_step) (tr ++ ev));
+        [ intros l tr l' ev [HI HF] E; pose proof (be_iter_time time_step l HI) as X; pose proof (be_iter_sizes time_step l tr HI HF) as Y;
+          rewrite E in X, Y; split; assumption |];
+        assert (S2 : forall l (tr : list be_event) st t sts s0 ev, btinv time_step l /\ Forall (be_size_ok time_step) tr ->
+                       iter time_step l = inl (st, t, sts, s0, ev) -> Forall (be_size_ok time_step) (tr ++ ev));
+        [ intros l tr st t sts s0 ev [HI HF] E; pose proof (be_iter_sizes time_step l tr HI HF) as Y; rewrite E in Y; exact Y |];
+        assert (S3 : forall (l : be_loop_state) (tr : list be_event), btinv time_step l /\ Forall (be_size_ok time_step) tr ->
+                       Forall (be_size_ok time_step) tr)
+          by (intros l tr HI; exact (proj2 HI));
+        apply (LI S1 S2 S3 fuel l0 [])
+      end.
+      split; [|constructor].
+      unfold btinv. cbn [b_t b_H]. split; [rewrite H0; split; lra|].
+      rewrite H0. destruct (is_zero (bp_h_start p)); [split; lra|].
+      destruct (bmin_cases (bp_h_start p) time_step) as [[-> Hc] | [-> Hc]]; split; lra.
+    Qed.
   End TimeBounds.
 End BEInvariants.
